@@ -18,7 +18,7 @@ RULE = (
     "alu: 3 streamers, each varied over a menu (temporal dims 1,2,3,6 with flags all-n / leading r / one i; spatial dims (4,),(8,),(8,4); every subset of "
     "{address remap, channel mask, broadcast, transpose}) one at a time and all equal, x every temporal pattern length 0..T x zero-pointer choice; gemmx: default "
     "and n=4/16/6/1 (thorough: 1..17) geometries x kernels {mac, qmac(zero points), qmac->i8, qmac->rescale->i8 (1 and n channels), rescale only} x pattern variants; xdma: with and "
-    "without channel/byte masks x extension subsets; phs: accelerators built from merge histories (0..4 switches). distinct = distinct (config, pattern, kernel); "
+    "without channel/byte masks x extension subsets, and kernels handled by an extension (add, rescale down/up) x extension orders x masks listed first/last; phs: accelerators built from merge histories (0..4 switches). distinct = distinct (config, pattern, kernel); "
     "non-trivial = streamer has an option or pattern shorter than the hardware dimensionality"
 )
 ASSUMPTIONS = [
@@ -81,6 +81,14 @@ def space(tier):
         for ex in subsets:
             for L in (0, 2, 5) if tier == "quick" else range(6):
                 cases.append(("xdma", chan, byte, ex, L))
+        # kernels handled by an extension (add: i32; rescale down: i32 -> i8; rescale up: i8 -> i32) x option order (extensions first / masks first)
+        ksubsets = [(5,), (3,), (4,), (0, 5), (5, 3), (3, 4, 5), tuple(range(7)), (6, 5, 4, 3, 2, 1, 0)]
+        if tier == "thorough":
+            ksubsets += [c for k in (2, 3) for c in itertools.permutations((1, 3, 4, 5), k)]
+        for ex in ksubsets:
+            for kern in ("add", "rdown", "rup"):
+                for order in (0, 1):
+                    cases.append(("xdma", chan, byte, ex, 2, kern, order))
     hists = [(0,), (0, 1), (0, 7), (2, 9, 14), (0, 1, 7, 20)]
     if tier == "thorough":
         hists += [(a, b_) for a in range(0, 24, 3) for b_ in range(1, 24, 4)] + [(1, 5, 9), (3, 3, 8), (0, 4, 11, 19), (2, 6, 10, 14, 18)]
@@ -396,13 +404,28 @@ def eval_gemmx(r, geom, kern, var):
 # ------------------------------------------------------------------------------------------------ xdma
 
 
-def eval_xdma(r, chan, byte, ex, L):
+XDMA_KERNELS = {
+    # kernel text, input element type, output element type, index in XDMA_EXT_SET of the extension that handles it, its parameter values
+    "add": ("%k = kernel.add %e0, %e0 : i32, i32 -> i32", "i32", "i32", 5, [2]),
+    "rdown": (
+        "%k = kernel.rescale %e0 {input_zp = 3 : i32, output_zp = 5 : i32, multiplier = array<i32: 7>, shift = array<i32: 9>, max_int = 127 : i32, min_int = -128 : i32, double_round = false} : (i32) -> i8",
+        "i32", "i8", 3, [3, 7, 5, 9],
+    ),
+    "rup": (
+        "%k = kernel.rescale %e0 {input_zp = 3 : i32, output_zp = 5 : i32, multiplier = array<i32: 7>, shift = array<i32: 9>, max_int = 127 : i32, min_int = -128 : i32, double_round = false} : (i8) -> i32",
+        "i8", "i32", 4, [3, 7, 5, 9],
+    ),
+}
+
+
+def eval_xdma(r, chan, byte, ex, L, kern=None, order=0):
     from snaxc.accelerators import snax_xdma as X
     from snaxc.accelerators.streamers import extensions as E
     from snaxc.accelerators.streamers import streamers as S
 
     exts = [E.XDMA_EXT_SET[i]() for i in ex]
-    ropts = list(exts) + ([S.HasChannelMask()] if chan else [])
+    masks = [S.HasChannelMask()] if chan else []
+    ropts = (masks + list(exts)) if order else (list(exts) + masks)
     wopts = ([S.HasChannelMask()] if chan else []) + ([S.HasByteMask()] if byte else [])
     t = ["n"] * 5
     cfg = S.StreamerConfiguration([S.Streamer(S.StreamerType.Reader, t, [8], ropts), S.Streamer(S.StreamerType.Writer, t, [8], wopts)], S.StreamerSystemType.DmaExt)
@@ -415,11 +438,18 @@ def eval_xdma(r, chan, byte, ex, L):
         '    %g = "dart.generic"(%s0) <{library_call = "snax_xdma"}> ({\n    ^bb1(%e0 : i8, %e1 : i8):\n      dart.yield %e0 : i8\n'
         "    }) : (!dart.stream<i8>) -> !dart.stream<i8>\n    dart.yield %g : !dart.stream<i8>\n"
     )
+    if kern is not None:
+        ktext, tin, tout, _, _ = XDMA_KERNELS[kern]
+        body = (
+            f"  ^bb0(%s0 : !dart.stream<{tin}>, %s1 : !dart.stream<{tout}>):\n"
+            f'    %g = "dart.generic"(%s0) <{{library_call = "snax_xdma"}}> ({{\n    ^bb1(%e0 : {tin}, %e1 : {tout}):\n      {ktext}\n      dart.yield %k : {tout}\n'
+            f"    }}) : (!dart.stream<{tin}>) -> !dart.stream<{tout}>\n    dart.yield %g : !dart.stream<{tout}>\n"
+        )
     text = region_text("snax_xdma", decl, 2, None, pats, 1, 1, body)
-    key = f"xdma|{chan}|{byte}|{ex}|{L}"
-    case_j = dict(kind="xdma", chan=chan, byte=byte, ex=ex, L=L)
+    key = f"xdma|{chan}|{byte}|{ex}|{L}" + (f"|{kern}|{order}" if kern is not None else "")
+    case_j = dict(kind="xdma", chan=chan, byte=byte, ex=ex, L=L, kern=kern, order=order)
     res = run_convert(acc, text, key, case_j, r)
-    r.obs = ("xdma", chan, byte, ex, L)
+    r.obs = ("xdma", chan, byte, ex, L, kern, order)
     r.states = 1
     r.nontrivial = True
     r.sample = dict(kind="xdma", channel_mask=chan, byte_mask=byte, extensions=[type(e).__name__ for e in exts])
@@ -438,8 +468,19 @@ def eval_xdma(r, chan, byte, ex, L):
         exp[f"{name}_enabled_chan"] = -1
         if any(type(o).__name__ == "HasByteMask" for o in st.opts):
             exp[f"{name}_enabled_byte"] = -1
-        exp[f"{name}_bypass"] = 0
-    compare(r, key, case_j, names, vals, exp, f"snax_xdma chan={chan} byte={byte} ext={ex}")
+        # bit k of <s>_bypass belongs to the k-th extension of the streamer (the order in which their parameter fields are declared); it is set
+        # for the extension that handles the kernel, whose parameter registers get the kernel's values; all other extension parameters are 0
+        stexts = [o for o in st.opts if isinstance(o, E.StreamerExtension)]
+        handler = XDMA_KERNELS[kern][3] if kern is not None else None
+        bypass = 0
+        for k, e in enumerate(stexts):
+            handles = handler is not None and type(e) is E.XDMA_EXT_SET[handler]
+            if handles:
+                bypass |= 1 << k
+            for j in range(e.csr_length):
+                exp[f"{name}_{e.name}_{j}"] = XDMA_KERNELS[kern][4][j] if handles else 0
+        exp[f"{name}_bypass"] = bypass
+    compare(r, key, case_j, names, vals, exp, f"snax_xdma chan={chan} byte={byte} ext={ex} kernel={kern} masks_first={order}")
 
 
 # ------------------------------------------------------------------------------------------------ phs
@@ -524,7 +565,7 @@ def replay(case):
     elif k == "gemmx":
         c = ("gemmx", case["geom"], case["kern"], case["var"])
     elif k == "xdma":
-        c = ("xdma", case["chan"], case["byte"], _t(case["ex"]), case["L"])
+        c = ("xdma", case["chan"], case["byte"], _t(case["ex"]), case["L"]) + ((case["kern"], case["order"]) if case.get("kern") else ())
     else:
         c = ("phs", _t(case["hist"]), case["k"], case["L"])
     return evaluate(c).violations
